@@ -115,7 +115,7 @@ func c08Property(t *rapid.T) {
 	w := tpl.InstantiateWith("c08", opts)
 	defer w.N.Destroy()
 	g := newHistGen(t, w)
-	g.weights = append(g.weights, "malformed", "malformed", "xvm")
+	g.weights = append(g.weights, "malformed", "malformed", "xvm", "mutated", "mutated", "mutated", "mutated", "mutated", "mutated")
 	methods := contractMethods(w.N)
 	pools := defaultPools(w)
 	var ops []string
